@@ -132,6 +132,10 @@ def resolveAxis (axis : Int) (dims : Nat) : Int :=
     the step it stands for. -/
 def desugar (ps : PState) (toks : List String) : List String :=
   match toks with
+  -- constructors with their options in another order: the same tensor
+  | ["new", dt, sh, "C1"] => ["new", dt, sh, "C"]
+  | ["new", dt, sh, "Fraw1"] => ["new", dt, sh, "Fraw"]
+  | ["new", dt, sh, "Fraw2"] => ["new", dt, sh, "Fraw"]
   | ["apiT", v, axes] => ["safeT", v, axes]
   | ["apimat", v] => ["mat", v]
   | ["narrow", v, dim, start, len, _] =>
